@@ -141,6 +141,8 @@ def payloads(canary):
         ("fmt_attr", "{langid.__class__.__mro__} {0.__class__} MARK14"),
         ("fmt_index", "{langid[0]}{langid!r:>30} MARK15"),
         ("percent_dollar", "%(langid)s %s ${HOME} $HOME MARK16"),
+        # replacement-template syntax of the regex engine (group references, escapes)
+        ("re_template", "\\g<0> \\1 \\d MARK20"),
         # file names: text that, taken for a path to write to, would create or clobber a file
         ("path_abs", f"{canary}/MARK17.txt"),
         ("path_up", "../canary/keep.txt"),
@@ -148,7 +150,7 @@ def payloads(canary):
     ]
 
 
-TEMPLATE_PAYLOADS = ("fmt_attr", "fmt_index", "percent_dollar")
+TEMPLATE_PAYLOADS = ("fmt_attr", "fmt_index", "percent_dollar", "re_template")
 
 
 MAIN = "main.F90"
@@ -193,6 +195,7 @@ def sites(P):
                                         "pp_defs": {P: P, "Y": P}})
     S["config_scalars"] = w("#if Y\n#endif\n", config={"nthreads": P, "max_line_length": P, "recursion_limit": 1000,
                                                        "pp_defs": {"Y": "1"}, "debug_log": True})
+    S["function_macro_noparams"] = w(f"#define X() {P}\n  v1 = X()\n")
     S["config_file_names"] = w("", config={"debug_log": P, "hover_language": P, "config": P, "source_dirs": ["."]})
     S["use_and_decl"] = w(f"  use {P}\n  type({P}) :: q\n  call {P}\n")
     return S
@@ -236,6 +239,7 @@ def run_case(job, acc: Acc):
     del _EVENTS[:]
     exc = None
     shown = []
+    indexed = {}
     _ON[0] = True
     try:
         s = Server(site["argv"])
@@ -263,6 +267,7 @@ def run_case(job, acc: Acc):
                         shown.append((method, ln, col, res))
         s.result("textDocument/documentSymbol", {"textDocument": {"uri": Server.tdpp(doc, 0, 0)["textDocument"]["uri"]}})
         s.result("workspace/symbol", {"query": ""})
+        indexed = {os.path.basename(k): v for k, v in s.srv.workspace.items()}     # (exit empties the workspace)
         s.notify("exit", {})
     except Exception as e:  # noqa
         exc = repr(e)
@@ -284,7 +289,7 @@ def run_case(job, acc: Acc):
             bad.append(("error_on_template_text", f"{method} {ln}:{col} {res[2][:80]}"))
             continue
         txt = json.dumps(res)
-        for m in re.finditer(r"#define X (.*?)(?:\\n|```)", txt):
+        for m in re.finditer(r"#define X(?:\(\))? (.*?)(?:\\n|```)", txt):
             acc.count("macro_bodies_shown")
             if squeeze(json.dumps(P)[1:-1]) not in squeeze(m.group(0)):
                 bad.append(("template_text_not_verbatim", f"{method} {ln}:{col} shows {m.group(0)[:120]!r}"))
@@ -292,6 +297,19 @@ def run_case(job, acc: Acc):
             acc.count("parameter_values_shown")
             if squeeze(json.dumps(P.replace(chr(34), chr(39)))[1:-1]) not in squeeze(m.group(0)):
                 bad.append(("template_text_not_verbatim", f"{method} {ln}:{col} shows {m.group(0)[:120]!r}"))
+    if pname in TEMPLATE_PAYLOADS and exc is None:
+        # the expansion of a macro copies its body: nothing in it is a template for the substitution machinery
+        fobj = indexed.get(os.path.basename(doc))
+        if sname not in ("function_macro_noparams", "function_macro_body", "define_if"):
+            pass
+        elif fobj is None or fobj.ast is None:
+            bad.append(("document_not_indexed", "the document with the payload dropped out of the index"))
+        elif sname == "function_macro_noparams":
+            pp = "\n".join(getattr(fobj, "contents_pp", []) or [])
+            use = [ln for ln in pp.split("\n") if ln.lstrip().startswith("v1 =") and "1" != ln.strip()[-1:]]
+            acc.count("expansions_seen", len(use))
+            if sname == "function_macro_noparams" and not any(squeeze(P) in squeeze(ln) for ln in use):
+                bad.append(("expansion_not_verbatim", f"v1 = X() expands to {use[:2]!r}"))
     acc.case(nontrivial_key=(pname, sname, path_kind), outcome=(len(events) > 0, exc is None))
     acc.count("audit_events_seen", len(events))
     if exc and "HarnessError" in exc:
